@@ -177,6 +177,23 @@ func Confusables(v spec.Vec, f func(s, label string)) {
 			f(string(r), "unicode:lookalike-char")
 		}
 	}
+	// characters that alias an ASCII character when a rune is truncated to its low byte
+	// (c + 0x100*k) or a byte to 7 bits (c | 0x80, not valid UTF-8)
+	for i, c := range src {
+		if c >= 0x21 && c <= 0x7e {
+			for _, off := range []rune{0x100, 0x200, 0x400, 0x1000, 0x10000} {
+				r := append([]rune(nil), src...)
+				r[i] = c + off
+				f(string(r), "unicode:low-byte-alias")
+			}
+			b := []byte(string(src))
+			// byte offset of rune i (src is ASCII up to here in the vectors used)
+			if len(b) == len(src) {
+				b[i] = byte(c) | 0x80
+				f(string(b), "unicode:high-bit-alias")
+			}
+		}
+	}
 	// whole string, all letters, all digits, all separators in full-width
 	for _, which := range []string{"all", "letters", "digits", "separators"} {
 		r := append([]rune(nil), src...)
@@ -224,8 +241,108 @@ func Dense(v spec.Vec, full bool, f func(s, label string)) {
 	}
 }
 
+// ValueRuns replaces each token's value by concatenations of codes of the same metric:
+// every ordered pair, every contiguous run of the table order and of its reverse (a lookup
+// by substring / prefix / index-of would accept some of them).
+func ValueRuns(ver int, v spec.Vec, f func(s, label string)) {
+	tab := tabOf(ver)
+	segs := segsOf(v)
+	first := 0
+	if ver == 3 {
+		first = 1
+	}
+	for i := first; i < len(segs); i++ {
+		tk, _ := splitSeg(segs[i])
+		m := spec.ByName(tab, tk.Name)
+		if m == nil {
+			continue
+		}
+		seen := map[string]bool{}
+		try := func(val string) {
+			if m.Has(val) || seen[val] || val == "" {
+				return
+			}
+			seen[val] = true
+			r := append([]string(nil), segs...)
+			r[i] = tk.Name + ":" + val
+			f(strings.Join(r, "/"), "value-run")
+		}
+		for _, a := range m.Codes {
+			for _, b := range m.Codes {
+				try(a + b)
+			}
+		}
+		for _, order := range [][]string{m.Codes, reversed(m.Codes), sorted(m.Codes)} {
+			for a := 0; a < len(order); a++ {
+				for b := a + 2; b <= len(order); b++ {
+					try(strings.Join(order[a:b], ""))
+				}
+			}
+		}
+		// the orders a hand-written lookup string would plausibly use
+		for _, hand := range []string{"XNLH", "XLMH", "XHML", "NLH", "HLN", "XNALP", "NALP", "PLAN", "XUC", "XUPFH", "XOTWU", "XURC", "NDLMH", "LMHND", "NPC", "LAN", "HML"} {
+			for a := 0; a < len(hand); a++ {
+				for b := a + 2; b <= len(hand); b++ {
+					try(hand[a:b])
+				}
+			}
+		}
+	}
+}
+
+func reversed(s []string) []string {
+	r := make([]string, len(s))
+	for i := range s {
+		r[len(s)-1-i] = s[i]
+	}
+	return r
+}
+
+func sorted(s []string) []string {
+	r := append([]string(nil), s...)
+	sortStrings(r)
+	return r
+}
+
+// Moves calls f with every transposition of two tokens and every single-token move.
+func Moves(v spec.Vec, f func(s, label string)) {
+	segs := segsOf(v)
+	first := 0
+	if v.Ver != "" {
+		first = 1
+	}
+	for i := first; i < len(segs); i++ {
+		for j := i + 1; j < len(segs); j++ {
+			r := append([]string(nil), segs...)
+			r[i], r[j] = r[j], r[i]
+			f(strings.Join(r, "/"), "move:transposition")
+		}
+		for j := first; j < len(segs); j++ {
+			if j == i {
+				continue
+			}
+			var r []string
+			for k, s := range segs {
+				if k == i {
+					continue
+				}
+				if len(r) == j {
+					r = append(r, segs[i])
+				}
+				r = append(r, s)
+			}
+			if len(r) == j || len(r) < len(segs) {
+				r = append(r, segs[i])
+			}
+			f(strings.Join(r, "/"), "move:single-token")
+		}
+	}
+}
+
 // Shapes runs all of the above for one vector and decoder level.
 func Shapes(ver int, v spec.Vec, level spec.Level, full bool, f func(s, label string)) {
+	ValueRuns(ver, v, f)
+	Moves(v, f)
 	Floods(ver, v, level, full, f)
 	LongTokens(ver, v, full, f)
 	Confusables(v, f)
